@@ -19,120 +19,6 @@ open RotoV.Dce
 
 variable {ι κ ρ σ α : Type}
 
-/-- Invariant of the worklist loop, relative to the original blocks `cfg0`:
-    the first `i` labels of the state have been processed (their block is the
-    truncation of the original one, successors recorded in the state), every
-    other block is untouched, the state has no duplicates. -/
-structure Inv (cfg0 : Cfg ι κ ρ) (i : Nat) (st : List Label) (cfg : Cfg ι κ ρ) : Prop where
-  le : i ≤ st.length
-  nodup : st.Nodup
-  processed : ∀ l ∈ st.take i, ∃ b b', findBlock cfg0 l = some b ∧ findBlock cfg l = some b' ∧
-    Trunc st b.instrs b'.instrs
-  untouched : ∀ l, l ∉ st.take i → findBlock cfg l = findBlock cfg0 l
-  labels : cfg.map (·.label) = cfg0.map (·.label)
-
-private theorem getElem_not_mem_take {st : List Label} (hn : st.Nodup) {i : Nat} (h : i < st.length) :
-    st[i] ∉ st.take i := by
-  intro hm
-  obtain ⟨j, hj, e⟩ := List.mem_take_iff_getElem.mp hm
-  have hji : j < i := by omega
-  have hjl : j < st.length := by omega
-  have := (List.getElem_inj hn).mp e
-  omega
-
-/-- One iteration keeps the invariant. -/
-private theorem Inv.step {cfg0 cfg : Cfg ι κ ρ} {i : Nat} {st st' : List Label}
-    {b : Block ι κ ρ} {is : List (Instr ι κ ρ)}
-    (inv : Inv cfg0 i st cfg) (h : i < st.length)
-    (hf : findBlock cfg st[i] = some b) (hp : processBlock st b.instrs = some (st', is)) :
-    Inv cfg0 (i + 1) st' (setBlock cfg st[i] is) ∧ ∃ ext, st' = st ++ ext := by
-  obtain ⟨ht, ⟨ext, he⟩, hnd⟩ := processBlock_spec hp
-  have hsub : ∀ x ∈ st, x ∈ st' := fun x hx => by rw [he]; exact List.mem_append_left _ hx
-  have hnot := getElem_not_mem_take inv.nodup h
-  have hf0 : findBlock cfg0 st[i] = some b := by rw [← inv.untouched _ hnot]; exact hf
-  have htake : st'.take (i + 1) = st.take i ++ [st[i]] := by
-    rw [he, List.take_append_of_le_length (by omega), List.take_succ_eq_append_getElem h]
-  refine ⟨⟨?_, hnd inv.nodup, ?_, ?_, ?_⟩, ext, he⟩
-  · rw [he, List.length_append]; omega
-  · intro l hl
-    rw [htake] at hl
-    rcases List.mem_append.mp hl with hl | hl
-    · have hne : l ≠ st[i] := fun e => hnot (e ▸ hl)
-      obtain ⟨b0, b1, h0, h1, t⟩ := inv.processed l hl
-      exact ⟨b0, b1, h0, by rw [findBlock_setBlock_other is hne]; exact h1, t.mono hsub⟩
-    · have : l = st[i] := by simpa using hl
-      subst this
-      exact ⟨b, { b with instrs := is }, hf0, findBlock_setBlock_same is hf, ht⟩
-  · intro l hl
-    rw [htake] at hl
-    have h1 : l ∉ st.take i := fun h => hl (List.mem_append_left _ h)
-    have h2 : l ≠ st[i] := fun e => hl (List.mem_append_right _ (by simp [e]))
-    rw [findBlock_setBlock_other is h2]
-    exact inv.untouched l h1
-  · rw [setBlock_labels]; exact inv.labels
-
-/-- The processed labels are distinct labels of blocks, so there are at most
-    `cfg0.length` of them (the termination measure of the Rust `while`). -/
-private theorem Inv.bound {cfg0 cfg : Cfg ι κ ρ} {i : Nat} {st : List Label}
-    (inv : Inv cfg0 i st cfg) : i ≤ cfg0.length := by
-  have hn : (st.take i).Nodup := List.Nodup.sublist (List.take_sublist i st) inv.nodup
-  have hs : st.take i ⊆ cfg0.map (·.label) := by
-    intro l hl
-    obtain ⟨b0, _, h0, _, _⟩ := inv.processed l hl
-    exact mem_labels_of_findBlock h0
-  have := List.Nodup.length_le_of_subset hn hs
-  rw [List.length_take, List.length_map] at this
-  have := inv.le
-  omega
-
-/-- The loop with enough fuel never runs out of it; when it finishes, every
-    label of the final state has been processed. -/
-theorem loop_spec (cfg0 : Cfg ι κ ρ) :
-    ∀ (fuel i : Nat) (st : List Label) (cfg : Cfg ι κ ρ),
-      Inv cfg0 i st cfg → cfg0.length + 1 ≤ i + fuel →
-      match loop fuel i st cfg with
-      | .ok (st', cfg') => Inv cfg0 st'.length st' cfg' ∧ ∃ ext, st' = st ++ ext
-      | .panic => True
-      | .fuel => False := by
-  intro fuel
-  induction fuel with
-  | zero =>
-    intro i st cfg inv hfuel
-    have := inv.bound
-    have := inv.le
-    have hnl : ¬ i < st.length := by omega
-    rw [loop_done cfg 0 hnl]
-    have : i = st.length := by omega
-    subst this
-    exact ⟨inv, [], by simp⟩
-  | succ f ih =>
-    intro i st cfg inv hfuel
-    by_cases h : i < st.length
-    · cases hf : findBlock cfg st[i] with
-      | none => rw [loop_succ_none cfg f h hf]; trivial
-      | some b =>
-        cases hp : processBlock st b.instrs with
-        | none => rw [loop_succ_ice cfg f h hf hp]; trivial
-        | some r =>
-          obtain ⟨st', is⟩ := r
-          obtain ⟨inv', ext, he⟩ := inv.step h hf hp
-          have := ih (i + 1) st' (setBlock cfg st[i] is) inv' (by omega)
-          rw [loop_succ_step cfg f h hf hp]
-          split at this
-          · obtain ⟨i2, ext2, he2⟩ := this
-            exact ⟨i2, ext ++ ext2, by rw [he2, he, List.append_assoc]⟩
-          · trivial
-          · exact this.elim
-    · rw [loop_done cfg (f + 1) h]
-      have := inv.le
-      have : i = st.length := by omega
-      subst this
-      exact ⟨inv, [], by simp⟩
-
-private theorem inv_init (b : Block ι κ ρ) (rest : Cfg ι κ ρ) :
-    Inv (b :: rest) 0 [b.label] (b :: rest) :=
-  ⟨by simp, by simp, by simp, fun _ _ => rfl, rfl⟩
-
 /-- **Termination** of `process_item`: the fuel `blocks.len() + 1` given to the
     model of the `while i < state.len()` loop is never exhausted — every
     iteration consumes a distinct block label. -/
